@@ -272,6 +272,58 @@ func init() {
 	mr.writes = func(call *ast.CallExpr, info *types.Info, w *writes) {
 		w.fams["R|"+typeKey(types.Typ[types.Byte])+"|"] = true
 	}
+	// ---- UDP sockets: sources and sinks of arbitrary datagrams ----
+	{
+		bt := types.Typ[types.Byte]
+		snapshot := func(ex *Exec, st *State, b Value, n *Term) Value {
+			// an exact copy of the buffer's backing array at this moment, seen through (off, n)
+			ref := st.newRef()
+			for _, l := range leavesOf(bt) {
+				st.setRegionArr(bt, l, ref, st.regionArr(bt, l, b.L[".ref"]))
+			}
+			return Value{T: types.NewSlice(bt), L: map[string]*Term{".ref": ref, ".off": b.L[".off"], ".len": n, ".cap": n}}
+		}
+		rd := reg("(*net.UDPConn).ReadMsgUDPAddrPort", "receives an arbitrary datagram: 0 <= n <= len(b), 0 <= oobn <= len(oob), contents of b and oob arbitrary, flags, source and error arbitrary; ghost lastpkt() = b[:n] as received", func(ex *Exec, st *State, c *ast.CallExpr, r *Value, a []Value) []Value {
+			sig := ex.info().TypeOf(c.Fun).(*types.Signature)
+			b, oob := a[0], a[1]
+			for _, x := range []Value{b, oob} {
+				lv := &LValue{kind: lvElem, rootT: bt, ref: x.L[".ref"], idx: x.L[".off"]}
+				ex.frameCheck(lv, st, c)
+				ex.havocRange(st, bt, x.L[".ref"])
+			}
+			var res []Value
+			for i := 0; i < sig.Results().Len(); i++ {
+				v := freshValue("recv", sig.Results().At(i).Type())
+				st.assumeValid(v)
+				res = append(res, v)
+			}
+			n, oobn := res[0].scalar(), res[1].scalar()
+			st.assume(mkAnd(mkCmp("le", mkInt(sortInt, 0), n), mkCmp("le", n, b.L[".len"])))
+			st.assume(mkAnd(mkCmp("le", mkInt(sortInt, 0), oobn), mkCmp("le", oobn, oob.L[".len"])))
+			st.ghost["net.lastpkt"] = snapshot(ex, st, b, n)
+			return res
+		})
+		rd.writes = func(call *ast.CallExpr, info *types.Info, w *writes) {
+			w.fams["R|"+typeKey(bt)+"|"] = true
+		}
+		reg("(*net.UDPConn).WriteToUDPAddrPort", "sends b: result (n, err) arbitrary with 0 <= n <= len(b); ghost lastsent() = b as sent", func(ex *Exec, st *State, c *ast.CallExpr, r *Value, a []Value) []Value {
+			b := a[0]
+			st.ghost["net.lastsent"] = snapshot(ex, st, b, b.L[".len"])
+			n := freshValue("sent", types.Typ[types.Int])
+			st.assumeValid(n)
+			st.assume(mkAnd(mkCmp("le", mkInt(sortInt, 0), n.scalar()), mkCmp("le", n.scalar(), b.L[".len"])))
+			e := freshValue("senderr", ex.vc.errT)
+			st.assumeValid(e)
+			return []Value{n, e}
+		})
+		for _, nm := range []string{"(*net.UDPConn).Close", "(*net.UDPConn).SetDeadline", "(*net.UDPConn).SetReadDeadline"} {
+			reg(nm, "no effect on tracked state; error arbitrary", func(ex *Exec, st *State, c *ast.CallExpr, r *Value, a []Value) []Value {
+				e := freshValue("neterr", ex.vc.errT)
+				st.assumeValid(e)
+				return []Value{e}
+			})
+		}
+	}
 	regSort()
 	reg("(*sync.Mutex).Lock", "mutual exclusion: acquires the ghost permission of the guarded state", func(ex *Exec, st *State, c *ast.CallExpr, r *Value, a []Value) []Value {
 		ex.lockOp(st, c, r, true)
